@@ -4,9 +4,12 @@ package fw
 
 import (
 	"encoding/json"
+	"fmt"
 	"hash/fnv"
 	"os"
 	"sort"
+	"strconv"
+	"time"
 )
 
 // Replay is everything needed to re-run one case without any explorer.
@@ -71,6 +74,11 @@ type Ctx struct {
 	// Resume: skip (count but do not run) cases with index < SkipTo.
 	SkipTo int64
 
+	// Deadline: past it no further case is started (Mine answers false, explorers stop); the
+	// result is then reported with exhaustive=false and a note.  Zero = none.
+	Deadline time.Time
+	expired  bool
+
 	idx      int64
 	R        ShardResult
 	seen     map[uint64]struct{}
@@ -88,7 +96,38 @@ func NewCtx(check, tier string, shard, n int, seed int64) *Ctx {
 	c.R.Counters = map[string]int64{}
 	c.R.Bounds = map[string]interface{}{}
 	c.R.Exhaustive = true
+	budget := 0
+	switch tier {
+	case "quick":
+		budget = 900
+	case "thorough":
+		budget = 5400
+	}
+	if v := os.Getenv("VERIF_BUDGET_S"); v != "" {
+		if n, err := strconv.Atoi(v); err == nil {
+			budget = n
+		}
+	}
+	if budget > 0 {
+		c.Deadline = time.Now().Add(time.Duration(budget) * time.Second)
+		c.R.Bounds["wall_clock_budget_s"] = budget
+	}
 	return c
+}
+
+// Expired reports whether the wall-clock budget of this shard is used up; the first time it is, the
+// result is marked not exhaustive.
+func (c *Ctx) Expired() bool {
+	if c.expired {
+		return true
+	}
+	if c.Deadline.IsZero() || time.Now().Before(c.Deadline) {
+		return false
+	}
+	c.expired = true
+	c.R.Exhaustive = false
+	c.Note(fmt.Sprintf("wall-clock budget used up at case index %d: enumeration stopped, everything before it was covered", c.idx))
+	return true
 }
 
 func (c *Ctx) Quick() bool { return c.Tier != "thorough" }
@@ -100,7 +139,15 @@ func (c *Ctx) Mine() bool {
 	if i < c.SkipTo {
 		return false
 	}
-	return int(i%int64(c.NShards)) == c.Shard
+	if int(i%int64(c.NShards)) != c.Shard {
+		return false
+	}
+	if i&63 == int64(c.Shard) || c.expired {
+		if c.Expired() {
+			return false
+		}
+	}
+	return true
 }
 
 // Index of the case most recently handed out by Mine.
